@@ -226,9 +226,69 @@ def run_point(spec):
     return b, nt, ["variant:" + spec["label"], "at:%s-%s" % ev]
 
 
+def run_commit_fault(spec):
+    """Fault = the j-th COMMIT of the request fails with 'database is locked' (another connection
+    holds the file lock beyond the busy timeout); the process stays alive.  What the response
+    reports must be what is in effect: items answered SUCCESS are applied, the others are not."""
+    import sqlite3
+    import sqlalchemy.exc
+    from sqlalchemy import event
+    db, idx = store.standard_template()
+    cal = calibration(spec["label"])
+    var = cal["var"]
+    srv = H.Server(template=db)
+    others = []
+    try:
+        seen = [0]
+
+        def on_commit(conn):
+            k = seen[0]
+            seen[0] += 1
+            if k == spec["j"]:
+                raise sqlalchemy.exc.OperationalError("COMMIT", {}, sqlite3.OperationalError("database is locked"))
+        event.listen(srv.engine._data_store, "commit", on_commit)
+        out = _send_fn(var)(srv)
+        event.remove(srv.engine._data_store, "commit", on_commit)
+        items = out.get("items")
+        if items is None:
+            # request-level error: nothing may be in effect
+            snap = hist.snapshot(srv, cal["mask"])
+            b = [] if snap == cal["legal"][0] else [("C09|commit-fault|request-error-but-store-changed", repr(out))]
+            return b, True, ["commit-fault", "variant:" + spec["label"]]
+        ok = [k for k, it in enumerate(items) if it["status"] == "SUCCESS"]
+        mask = set(cal["mask"]) | set(hist.random_value_uids(items))
+        snap = hist.snapshot(srv, mask)
+        # reference: the items that were answered SUCCESS, run without any fault on a fresh copy
+        ref = H.Server(template=db)
+        others.append(ref)
+        if ok:
+            sub = [dict(var["items"][k]) for k in ok]
+            if len(sub) > 1:
+                for n_, it in enumerate(sub):
+                    it.setdefault("bid", "%02x" % (n_ + 1))
+            out2 = _send_fn(var, sub)(ref)
+            mask |= set(hist.random_value_uids(out2.get("items") or []))
+        want = hist.snapshot(ref, mask)
+        snap = hist.snapshot(srv, mask)
+        b = []
+        if snap != want:
+            b.append(("C09|commit-fault|reported-result-not-in-effect|" + spec["label"].split("-")[0],
+                      "commit #%d failed; items reported %r; diff vs. applying exactly the successful items:\n%s"
+                      % (spec["j"], [(i["op"], i["reason"] or "SUCCESS") for i in items],
+                         "\n".join(hist.diff(want, snap, 10)))))
+        return b, True, ["commit-fault", "variant:" + spec["label"],
+                         "commit-fault-acked" if len(ok) == len(items) else "commit-fault-reported-failure"]
+    finally:
+        srv.close()
+        for o in others:
+            o.close()
+
+
 def replay(spec):
     if "sends" in spec:
         return run_kill(spec)[0]
+    if spec.get("fault") == "commit-error":
+        return run_commit_fault(spec)[0]
     return run_point(spec)[0]
 
 
@@ -242,12 +302,27 @@ def all_points():
     return pts
 
 
+def all_commit_faults():
+    pts = []
+    for var in variants():
+        cal = calibration(var["label"])
+        ncommit = sum(1 for e in cal["log"] if e[0] == "commit")
+        for j in range(ncommit):
+            pts.append({"label": var["label"], "fault": "commit-error", "j": j})
+    return pts
+
+
 def point_worker(shard, nshards):
     col = core.Collector(PID)
     for i, spec in enumerate(all_points()):
         if i % nshards != shard:
             continue
         b, nt, cl = run_point(spec)
+        col.record(spec, nontrivial=nt, classes=cl, buckets=b)
+    for i, spec in enumerate(all_commit_faults()):
+        if i % nshards != shard:
+            continue
+        b, nt, cl = run_commit_fault(spec)
         col.record(spec, nontrivial=nt, classes=cl, buckets=b)
     return col
 
